@@ -76,9 +76,9 @@ def applyOption : P Cmd := do
   let _ ← P.u32be
   pure .nop
 
-/-- `DirectoryChunk` (endianness inherited from `PatchChunk`: little) -/
+/-- `DirectoryChunk` (`#[brw(big)]` since the C03-01 fix: the name length is big-endian) -/
 def directory : P Cmd := do
-  let n ← P.u32le
+  let n ← P.u32be
   let raw ← P.vecU8Bounded n.toNat
   let _name ← readString true raw
   pure .nop
@@ -336,7 +336,7 @@ def exec (inflate : Bytes → Nat → Bool) (limit : Nat) (fs : FS) (ti : Option
     | .deleteFile => pure (fs.removeFile path, ti)
     | .removeAll => pure (fs.removeDirAll (ascii ("sqpack/" ++ expansionFolder expansion.toNat)), ti)
     | .makeDirTree => do
-      let fs ← io (fs.createDirAll parent)
+      let fs ← io (fs.createDirAll path)        -- the whole path it names (fix C03-02)
       pure (fs, ti)
   | .targetInfo p => pure (fs, some p)
   | .nop => pure (fs, ti)
